@@ -26,7 +26,7 @@ class P(sb.StreamProp):
     USE_MATCHER = False
 
     def gen_scenario(self, rng):
-        return scenario.gen_scenario(rng, want={'feats': ('conds', 'xconds', 'star'), 'stack': True, 'flavors': ['nr', 'nr', 'r', 'r', 'c99']})
+        return scenario.gen_scenario(rng, want={'feats': ('conds', 'xconds', 'star'), 'stack': True, 'flavors': ['nr', 'nr', 'r', 'r', 'c99', 'cxx']})
 
     def gen_plan(self, rng, sc):
         return workload.gen_state_plan(rng, sc)
